@@ -134,6 +134,8 @@ def deviations():
     # appended (earlier indices stay valid for stored replays): model numbers that fill the four-column MODEL serial field / do not start at 1
     d.append(_model_numbers(999, 1000))
     d.append(_model_numbers(2, 9999))
+    # a blank chain identifier (column 22 is a space): legal in PDB files, only PDB text can express it
+    d.append(_res(0, 12, "chain", " "))
     return d
 
 
@@ -150,8 +152,11 @@ def BOUNDS(tier):
 def cases(tier):
     import itertools
 
+    blank = [k for k, f in enumerate(DEVS) if f.__name__ == "residue@0.chain=' '"][0]
     for c in enumio.combos(DEVS, 2):
         for fmt in ("PDB", "mmCIF"):
+            if fmt == "mmCIF" and blank in c:
+                continue
             yield dict(devs=list(c), start=fmt)
     if tier != "quick":
         for c in itertools.combinations(LAYOUT_CRITICAL, 3):
@@ -233,6 +238,8 @@ def norm_view(v):
     out = []
     for rec in v:
         rec = list(rec)
+        if rec[5] is not None and not str(rec[5]).strip():
+            rec[5] = None  # a blank chain identifier is 'no chain identifier' in every representation
         for k in (8, 9, 10, 11, 12):
             if rec[k] in ("-0.000", "-0.00"):
                 rec[k] = rec[k][1:]
@@ -299,7 +306,7 @@ def run_splitter(case, table):
             out.append(viol("splitter:read-back:" + rb[1], "reading %s raised %s" % (name, rb[2])))
             continue
         want = norm_view(enumio.table_view([a for a in table if a["model"] == m]))
-        dd = first_diff(df_view(rb[1]), want)
+        dd = first_diff(norm_view(df_view(rb[1])), want)
         if dd:
             out.append(viol("splitter:%s->%s:%s" % (case["start"], target, dd[0]), "splitter output for model %d: %s" % (m, dd[1])))
         if target == "PDB":
@@ -351,7 +358,7 @@ def run_case(case):
     r = observe(parse, text)
     if r[0] == "exc":
         return dict(nontrivial=True, outcome="parse-exc", violations=[viol("initial-parse:%s:%s" % (case["start"], r[1]), "parsing the emitted %s raised %s" % (case["start"], r[2]))])
-    d = first_diff(df_view(r[1]), want)
+    d = first_diff(norm_view(df_view(r[1])), want)
     if d:
         add("initial-parse:%s:%s" % (case["start"], d[0]), "parsing the emitted %s text: %s" % (case["start"], d[1]), None, None)
         return dict(nontrivial=True, outcome="initial-diff", violations=out, states=1, transitions=1)
@@ -390,7 +397,7 @@ def run_case(case):
             if r2[0] == "exc":
                 add("read-back:%s:%s" % (edge, r2[1]), "reading back along %s raised %s" % ("->".join(p2), r2[2]))
                 continue
-            got = df_view(r2[1])
+            got = norm_view(df_view(r2[1]))
             dd = first_diff(got, want)
             if dd:
                 add("roundtrip:%s:%s" % (edge, dd[0]), "path %s: %s" % ("->".join(p2), dd[1]), None, None)
@@ -402,7 +409,7 @@ def run_case(case):
 
 
 def _layout_kind(p):
-    for k in ("80", "missing TER after the last chain", "missing TER between", "separator", "charge", "coordinate", "fixed-column", "MODEL", "ENDMDL", "TER", "atom outside"):
+    for k in ("80", "missing TER after the last chain", "missing TER between", "separator", "charge", "coordinate", "fixed-column", "MODEL", "ENDMDL", "TER residue number", "TER", "atom outside"):
         if k in p:
             return k.replace(" ", "-")
     return "other"
